@@ -297,7 +297,7 @@ fn world<B: Backend>(rng: &mut Prng, n: usize) -> World {
         locals: keys::local_keys(rng, n),
         secrets: keys::signing_pairs::<B>(rng, n.min(2)),
         recipients: keys::pke_pairs::<B>(n.min(3)),
-        passwords: vec![vec![], vec![0], b"correct horse battery staple".to_vec(), vec![0u8; 7], rng.bytes(1024), rng.bytes(1)],
+        passwords: vec![vec![], vec![0], b"correct horse battery staple".to_vec(), vec![0u8; 7], rng.bytes(1024), rng.bytes(1), b"typed at a prompt\n".to_vec(), b"from a file\r\n".to_vec(), b" padded ".to_vec()],
     }
 }
 
@@ -594,7 +594,8 @@ pub fn tamper<B: Backend>(rec: &mut Recorder, st: &mut Stats, cfg: &Cfg) {
                 pw_unwrap::<B, Local>(rec, st, &q, pass, note);
             }
         }
-        for p2 in [&b""[..], &b"correct horse battery stapl"[..], &b"correct horse battery staple\0"[..], &b"Correct horse battery staple"[..]] {
+        for p2 in [&b""[..], &b"correct horse battery stapl"[..], &b"correct horse battery staple\0"[..], &b"Correct horse battery staple"[..],
+                   &b"correct horse battery staple\n"[..], &b"correct horse battery staple\r\n"[..], &b"correct horse battery staple "[..], &b" correct horse battery staple"[..]] {
             pw_unwrap::<B, Local>(rec, st, &blob, p2, json!({"cls":"other-password"}));
         }
         pw_unwrap::<B, Secret>(rec, st, &blob, pass, json!({"cls":"relabel","to":"secret"}));
@@ -858,6 +859,12 @@ pub fn fresh<B: Backend>(rec: &mut Recorder, st: &mut Stats, cfg: &Cfg) {
         pw_wrap::<B, Local>(rec, st, k, b"same password", Some(cost), None);
         pke_seal::<B>(rec, st, k, &w.recipients[0].public, None);
         keygen::<B>(rec, "local", None);
+    }
+    // the same secret key wrapped again and again (a nonce derived from the wrapped key instead of drawn would repeat)
+    let sk = &w.secrets[0].secret;
+    for _ in 0..(n / 4).max(40) {
+        pie_wrap::<B, Secret>(rec, st, sk, k, None);
+        pw_wrap::<B, Secret>(rec, st, sk, b"same password", Some(cost), None);
     }
     // the same operations on freshly started threads, one after the other, still in the same scenario
     let m = if cfg.thorough { 300 } else { 40 };
